@@ -16,7 +16,7 @@ ALL_KINDS = list(KINDS)
 STATES = ["ZERO", "ONE", "PLUS", "MINUS", "PLUS_I", "MINUS_I"]
 
 BASE = {
-    "mut": {"NEW": 6, "ADD_OP": 42, "ADD_SUB": 10, "COPY": 3, "APPLY": 5, "FLATTEN": 2, "SET_DUR": 3,
+    "mut": {"NEW": 6, "ADD_OP": 42, "ADD_OP_IN": 3, "ADD_SUB": 10, "COPY": 3, "APPLY": 5, "FLATTEN": 2, "SET_DUR": 3,
             "SET_REP": 2, "OVR_ENTER": 3, "OVR_LEAVE": 3, "SET_INIT": 1, "NEW_LIB": 1},
     "obs": {"LIST": 6, "LIST_TWICE": 2, "TIMES": 8, "DURATION": 4, "COMPOSITES": 3, "COMP_TIMES": 2,
             "CHANNELS": 1, "ACQ": 3, "LAST": 1, "STIM": 3, "OPENQL": 2, "PLOT": 2, "REPR": 1, "COPYOBS": 2,
@@ -39,17 +39,17 @@ def _merge(base, over):
 
 
 PROFILES = {
-    "C01": _merge(BASE, {"mut": {"ADD_OP": 50, "ADD_SUB": 12, "APPLY": 6, "COPY": 1, "FLATTEN": 0, "NEW_LIB": 0},
-                         "obs": {"TIMES": 14, "FULL": 6, "PLOT": 0, "OPENQL": 0}, "p_rel": 0.45,
+    "C01": _merge(BASE, {"mut": {"ADD_OP": 50, "ADD_SUB": 12, "APPLY": 6, "COPY": 1, "FLATTEN": 0, "NEW_LIB": 0, "SET_DUR": 6},
+                         "obs": {"TIMES": 12, "FULL": 12, "PLOT": 0, "OPENQL": 0}, "p_rel": 0.45, "p_regdur": 0.3,
                          "flt": {"SINK_FAIL": 0}, "class": {"mut": 66, "obs": 30, "flt": 4}}),
-    "C02": _merge(BASE, {"mut": {"ADD_OP": 50, "ADD_SUB": 14, "APPLY": 3, "FLATTEN": 1, "NEW_LIB": 0, "SET_DUR": 1, "OVR_ENTER": 1, "OVR_LEAVE": 1},
+    "C02": _merge(BASE, {"mut": {"ADD_OP": 50, "ADD_OP_IN": 8, "ADD_SUB": 14, "APPLY": 3, "FLATTEN": 1, "NEW_LIB": 0, "SET_DUR": 1, "OVR_ENTER": 1, "OVR_LEAVE": 1},
                          "obs": {"LIST": 12, "LIST_TWICE": 10, "LAST": 5, "COMPOSITES": 5, "FULL": 5, "PLOT": 0, "OPENQL": 0},
                          "p_rel": 0.4, "flt": {"SINK_FAIL": 0}, "class": {"mut": 62, "obs": 34, "flt": 4}}),
     "C03": _merge(BASE, {"class": {"mut": 48, "obs": 38, "flt": 14}, "mut": {"SET_DUR": 6, "OVR_ENTER": 5, "OVR_LEAVE": 5, "APPLY": 6},
                          "p_regdur": 0.35}),
-    "C04": _merge(BASE, {"mut": {"ADD_OP": 50, "ADD_SUB": 14, "APPLY": 3, "FLATTEN": 0, "NEW_LIB": 0, "COPY": 1},
-                         "obs": {"DURATION": 10, "TIMES": 10, "COMP_TIMES": 8, "FULL": 6, "PLOT": 0, "OPENQL": 0, "STIM": 1},
-                         "p_rel": 0.6, "flt": {"SINK_FAIL": 0}, "class": {"mut": 64, "obs": 32, "flt": 4},
+    "C04": _merge(BASE, {"mut": {"ADD_OP": 50, "ADD_SUB": 14, "APPLY": 3, "FLATTEN": 0, "NEW_LIB": 0, "COPY": 1, "SET_DUR": 6},
+                         "obs": {"DURATION": 8, "TIMES": 12, "COMP_TIMES": 6, "FULL": 10, "PLOT": 0, "OPENQL": 0, "STIM": 1},
+                         "p_rel": 0.6, "p_regdur": 0.3, "flt": {"SINK_FAIL": 0}, "class": {"mut": 64, "obs": 32, "flt": 4},
                          "kinds_bias": ["Wait", "SingleQubitOperation", "TwoQubitOperation", "VirtualVacant"]}),
     "C05": _merge(BASE, {"mut": {"ADD_OP": 40, "ADD_SUB": 16, "COPY": 12, "APPLY": 5, "FLATTEN": 1, "NEW_LIB": 0},
                          "obs": {"COPYOBS": 6, "FULL": 8, "TIMES": 8, "ACQ": 3, "PLOT": 0, "OPENQL": 0},
@@ -259,6 +259,58 @@ class Gen:
                 st["rel"] = [rng.choice(REL_TYPES), k]
         self.emit(st)
         self.model.add_op(name, st, {"checked": False, "rt": "FOLLOWED_BY", "ref_key": None})
+        return True
+
+    def mk_add_op_in(self, s):
+        """add an operation to a nested sub-circuit through the handle add() returned (no explicit relation)"""
+        rng = self.rng
+        m = self.model
+        cands = []
+        for name in self.sess_handles[s]:
+            if name in self.lib_handles or name in self.flat:
+                continue
+            root = m.roots[name]
+            for k, e in enumerate(m.entries[name]):
+                if e.is_comp and m.is_member(root, e) and e.rel_known:
+                    cands.append((name, k))
+        if not cands:
+            return False
+        name, k = rng.choice(cands)
+        if self.unrolled(name) >= 60:
+            return False
+        kinds = [x for x in self.kinds if x not in ("DispersiveMeasure",)]
+        if not kinds:
+            return False
+        kind = rng.choice(kinds)
+        arity, params = KINDS[kind]
+        st = {"s": s, "op": "ADD_OP_IN", "c": name, "k": k, "kind": kind}
+        if "multi" in params:
+            st["q"] = rng.sample(range(self.n_qubits), rng.randint(1, self.n_qubits))
+        elif arity == 2:
+            st["q"] = rng.sample(range(self.n_qubits), 2)
+        else:
+            st["q"] = [rng.randrange(self.n_qubits)]
+        if kind in TAKES_DUR and rng.random() < 0.9:
+            st["dur"] = {"fixed": rng.choice(self.durs)}
+        if kind in TAKES_CHAN and rng.random() < 0.7:
+            st["chan"] = rng.choice(CHANS)
+        if kind in ("DetectorOperation", "LogicalObservableOperation"):
+            st["det"] = {"last_acquisition_index": 3, "main_target": rng.randint(0, 3)}
+        if kind == "CoordinateShiftOperation":
+            st["shift"] = [rng.randint(0, 3), rng.randint(0, 3)]
+        # the nested block was placed according to the channels it had when it was added: only operations on
+        # channels the block already occupies keep that placement meaningful (anything else is outside the workload)
+        from sim.model import kind_channels
+        have = m.channels_of(m.entries[name][k])
+        new_ch = kind_channels(kind, st["q"], st.get("chan") if kind in TAKES_CHAN else None)
+        if not all(any(e == c or (e[0] == c[0] and e[1] == "ALL") for e in have) for c in new_ch):
+            return False
+        self.emit(st)
+        try:
+            m.add_op_in(name, st, {"checked": False, "rt": "FOLLOWED_BY", "ref_key": None})
+        except ModelError:
+            self.steps.pop()
+            return False
         return True
 
     def mk_add_sub(self, s):
@@ -502,7 +554,7 @@ class Gen:
     # ------------------------------------------------------------ main loop
     def run(self):
         rng = self.rng
-        makers = {"NEW": self.mk_new, "ADD_OP": self.mk_add_op, "ADD_SUB": self.mk_add_sub, "COPY": self.mk_copy,
+        makers = {"NEW": self.mk_new, "ADD_OP": self.mk_add_op, "ADD_OP_IN": self.mk_add_op_in, "ADD_SUB": self.mk_add_sub, "COPY": self.mk_copy,
                   "APPLY": self.mk_apply, "FLATTEN": self.mk_flatten, "SET_DUR": self.mk_set_dur,
                   "SET_REP": self.mk_set_rep, "OVR_ENTER": self.mk_ovr_enter, "OVR_LEAVE": self.mk_ovr_leave,
                   "SET_INIT": self.mk_set_init, "NEW_LIB": self.mk_new_lib}
